@@ -76,6 +76,7 @@ type Exec struct {
 	retHook      func(val Val)
 	externSites  int
 	sym          *symSession
+	unitFType    *Contract
 	tailNext     bool
 	retGuards    []*Term
 }
